@@ -179,6 +179,21 @@ def c04_checks(c, delays, stim, n, opts, caps, shift, scale, mono, stim2=None):
             if any(a >= b2 for a, b2 in zip(f, f[1:])):
                 out.append(('monotone', f'line {l} lane {lane}: time stamps not strictly increasing with polarity-independent delays: {f}'))
                 break
+    # several delay datasets: per-simulation selection (each lane inside the window of *its* dataset) and global selection by the seed argument
+    try:
+        rng_ = random.Random(int(abs(float(np.asarray(delays).sum())) * 8) + n)
+        d3 = np.concatenate([delays, delays * 2 + np.float32(0.5), delays * 4 + np.float32(1.25)], axis=0)
+        pick = [rng_.randrange(3) for _ in range(n)]
+        ctl = np.zeros((2, n), dtype=np.int32)
+        ctl[1] = 1
+        ctl[0] = pick
+        sp = WD.run(c, d3, stim, n, opts, caps, simctl=ctl)
+        out += [('dataset:per-sim:' + cl_, f'lane datasets {pick}: ' + msg) for cl_, msg in WD.check_sta(sp, c, d3, stim, n, opts, dataset=pick)]
+        g = rng_.randrange(3)
+        sg = WD.run(c, d3, stim, n, opts, caps, simctl=np.zeros((2, n), dtype=np.int32), prop_kw={'seed': g})
+        out += [('dataset:global:' + cl_, f'dataset {g} for all lanes: ' + msg) for cl_, msg in WD.check_sta(sg, c, d3, stim, n, opts, dataset=g)]
+    except Exception as e:  # noqa
+        out.append(('dataset:exception', repr(e)))
     if shift:
         s2 = WD.run(c, delays, stim, n, opts, caps, shift=shift)
         w2 = WD.all_waves(s2, c, n)
